@@ -95,6 +95,8 @@ func settle(t interface {
 	Fatalf(string, ...any)
 }, r *ev.Recorder, v verdict, c bodyCase,
 ) {
+	r.ClassN("leaves-hashed", int64(v.tl.hashed))
+	r.ClassN("leaves-kept-verbatim", int64(v.tl.kept))
 	if v.err == nil {
 		return
 	}
@@ -135,6 +137,77 @@ func TestObfuscateJSONCursor(t *testing.T) {
 		c.Output = out
 		settle(t, r, judge(d.text, out, rs, excl), c)
 	})
+}
+
+// ---- bounded-exhaustive: every small document x every short exclusion ------------------------
+
+// smallDocs enumerates every document of nesting <= 2 over the keys {a, b}:
+// leaves "s", 7, true; objects with each key absent or bound; arrays [], [x] and
+// ["s",7]. 653 documents.
+func smallDocs() []*node {
+	leaf := func() []*node {
+		return []*node{{K: kStr, S: "s"}, {K: kNum, N: "7"}, {K: kBool, B: true}}
+	}
+	level := func(inner func() []*node) []*node {
+		var out []*node
+		vals := append([]*node{nil}, inner()...)
+		for _, va := range vals {
+			for _, vb := range vals {
+				o := &node{K: kObj}
+				if va != nil {
+					o.Keys, o.Vals = append(o.Keys, "a"), append(o.Vals, va)
+				}
+				if vb != nil {
+					o.Keys, o.Vals = append(o.Keys, "b"), append(o.Vals, vb)
+				}
+				out = append(out, o)
+			}
+		}
+		out = append(out, &node{K: kArr})
+		for _, v := range inner() {
+			out = append(out, &node{K: kArr, Items: []*node{v}})
+		}
+		return out
+	}
+	v1 := func() []*node {
+		return append(append(leaf(), level(leaf)...), &node{K: kArr, Items: []*node{{K: kStr, S: "s"}, {K: kNum, N: "7"}}})
+	}
+	return append(leaf(), level(v1)...)
+}
+
+func TestSmallSpaceExhaustive(t *testing.T) {
+	r := ev.New(t, "C16")
+	r.SetExhaustive(true)
+	segs := []string{".a", ".b", "[]"}
+	excls := []string{""}
+	for l, cur := 1, []string{""}; l <= 3; l++ {
+		var next []string
+		for _, c := range cur {
+			for _, s := range segs {
+				next = append(next, c+s)
+			}
+		}
+		excls = append(excls, next...)
+		cur = next
+	}
+	for _, d := range smallDocs() {
+		text := render(d, false)
+		for _, e := range excls {
+			excl := []string{e}
+			r.Case()
+			rs := refFromCursors(excl)
+			c := bodyCase{Route: "Obfuscator.ObfuscateJSON (small space)", Doc: text, Exclusions: excl}
+			if nonTrivial(d, rs) {
+				r.NonTrivial(ev.JSON(c), func() any { return c })
+			}
+			out, err := md5Obfuscator.ObfuscateJSON(text, excl)
+			if err != nil {
+				t.Fatalf("%s", r.Fail(c, "ObfuscateJSON rejects a valid JSON document: %v", err))
+			}
+			c.Output = out
+			settle(t, r, judge(text, out, rs, excl), c)
+		}
+	}
 }
 
 // ---- witnesses of the listed findings ---------------------------------------------------
